@@ -184,6 +184,15 @@ def attribution_battery():
                       note="rows that repeat their inputs report the answer of their own call"))
     b.append(Scenario("Y B\nX X\nX X\n2 X\n", [("out", "Y", 8), ("out", "B", 8)], layout=["Y", "B"], default_answer=[0, 0],
                       answers={1: [1, 1], 2: [2, 2], 3: [3, 3]}, note="a test without input columns reports each call's answer"))
+    # eighth round: layouts that are ROTATIONS of the signal order (a permutation that is not its own inverse), and an
+    # output that is X in the constructor's answer and driven later
+    Sr = [("in", "A", 1, 0), ("out", "P", 8), ("out", "Q", 8), ("out", "R", 8), ("out", "S", 8)]
+    progr = "A P Q R S\n0 1 2 3 4\n1 5 6 7 8\n"
+    for lay, a1, a2 in ((["R", "P", "Q"], [3, 1, 2], [7, 5, 6]), (["S", "P", "R"], [4, 1, 3], [8, 5, 7]), (["Q", "R", "S", "P"], [2, 3, 4, 1], [6, 7, 8, 5]),
+                        (["S", "P", "Q", "R"], [4, 1, 2, 3], [8, 5, 6, 7]), (["Q", "S", "P"], [2, 4, 1], [6, 8, 5])):
+        b.append(Scenario(progr, Sr, layout=lay, default_answer=a1, answers={2: a2}, note="rotated layout %s" % lay))
+    b.append(Scenario(progr, Sr, layout=["P", "Q", "R", "S"], default_answer=[1, 2, 3, 4], answers={0: ["X", 2, "X", "Z"], 2: [5, 6, 7, 8]},
+                      note="outputs unknown (X / Z) in the constructor's answer are driven on the rows"))
     # seventh round: a row whose extraction fails half-way (a declared signal divides by an output that is 0) leaves nothing
     # behind: the next row reports its own call's values
     Sd = [("in", "A", 1, 0), ("out", "B", 8), ("out", "C", 8)]
